@@ -428,6 +428,20 @@ func c02R3(e *Engine) {
 			}
 		}
 	})
+	// … or through a helper that builds the MatchInput and receives the kind as an argument
+	instrs(mk, func(in ssa.Instruction) {
+		c, ok := in.(*ssa.Call)
+		if !ok || c.Call.StaticCallee() == nil || c.Call.StaticCallee() == im || e.fnRole(c.Call.StaticCallee()) != "core" || im == nil || !e.reach(c.Call.StaticCallee())[im] {
+			return
+		}
+		for _, a := range c.Call.Args {
+			if s, isK := constString(a); isK && (s == "key" || s == "filter" || s == "conditional") {
+				if _, have := calls[s]; !have {
+					calls[s] = c
+				}
+			}
+		}
+	})
 	kc, fc := calls["key"], calls["filter"]
 	construct := e.fname(mk) + ":filter-conjoined"
 	if kc == nil || fc == nil {
@@ -735,6 +749,18 @@ func c02R8(e *Engine) {
 			if b, isB := v.(*ssa.BinOp); isB {
 				walk(b.X, d+1)
 				walk(b.Y, d+1)
+			}
+			// a local struct of counters handed to a method (page.shouldBreak()): what its fields were set from
+			if u, isU := v.(*ssa.UnOp); isU {
+				if al, isAl := u.X.(*ssa.Alloc); isAl {
+					for _, r := range refsOf(al) {
+						if fa, isFA := r.(*ssa.FieldAddr); isFA {
+							for _, st := range storesTo(fa) {
+								walk(st.Val, d+1)
+							}
+						}
+					}
+				}
 			}
 		}
 		walk(ex.cond, 0)
